@@ -251,8 +251,10 @@ theorem C18_list_parts_exact (parts : List (Int × Bytes)) (hnd : keysNodup part
     (before the repair the upload was consumed first: fs:failed-complete-consumes-upload, and a missing part was
     `InternalError`: fs:complete-missing-part-internal-error); the metadata and the checksums of an object it replaces
     are replaced with it — by the upload's metadata, or none, and by no checksums (47e9b00; before:
-    fs:stale-metadata-after-complete, fs:stale-checksum-after-complete). Partial — excluded: part lists other than 1..m
-    (fs:complete-requires-consecutive-parts, fs:complete-part-list-validation), fs:complete-into-missing-bucket -/
+    fs:stale-metadata-after-complete, fs:stale-checksum-after-complete); a complete that passes validation but whose bucket
+    no longer exists is `NoSuchBucket` on both sides and changes nothing — the bucket is not recreated, the upload stays
+    (9bdb75f; before: fs:complete-into-missing-bucket). Partial — excluded: part lists other than 1..m
+    (fs:complete-requires-consecutive-parts, fs:complete-part-list-validation) -/
 theorem C18_complete_refines_partial (H : Hashes) (dl : Nat) {s : State} (hi : Inv s) {who : Who} {b k : Bytes}
     {u : UploadRef} {parts : Option (List (Option Int))} (hg : CompleteOk s who b k u parts) :
     (step H dl s (.completeMultipartUpload who b k u parts)).2 =
@@ -453,6 +455,13 @@ example :
       .completeMultipartUpload alice bka kA (some 1) (some [some 1]), .getObject bka kA none]
     GoodRun H0 4096 {} ops ∧ (run H0 4096 {} ops).2.getLast? = some (.get [2] 1 none (some (etagOf H0 [2])) [] {}) := by
   decide
+/-- a complete into a bucket that was deleted after the upload was created is inside `Good` (9bdb75f; it was the excluded
+    region fs:complete-into-missing-bucket): it is refused, the bucket stays away and the upload stays -/
+example :
+    let ops : List Op := [.createBucket bka, .createMultipartUpload alice bka kA none, .uploadPart alice bka kA (some 1) 1 [2],
+      .deleteBucket bka, .completeMultipartUpload alice bka kA (some 1) (some [some 1]), .listBuckets]
+    GoodRun H0 4096 {} ops ∧ (run H0 4096 {} ops).2.drop 4 = [.err .NoSuchBucket, .buckets []] ∧
+    (alLookup 1 (run H0 4096 {} ops).1.uploads).isSome = true := by decide
 /-- parts uploaded out of order (3, 1, 2) are listed in ascending order, inside `Good` -/
 example :
     let ops : List Op := [.createBucket bka, .createMultipartUpload alice bka kA none, .uploadPart alice bka kA (some 1) 3 [7],
